@@ -814,4 +814,10 @@ pub async fn convert_tiles_container(
 		ensure!(y >= -90., "y must be >= -90");
 		ensure!(y <= 90., "y must be <= 90");
 """, "", "versatiles_core/src/types/tile_coords.rs")]),
+    dict(p="C16", id="pm-tileid-digit-order", file="versatiles_container/src/container/pmtiles/types/tile_id.rs", checks=["C16", "C01"],
+         old="		d += s * s * ((3 * rx) ^ ry) as i64;", new="		d += s * s * ((2 * rx) ^ ry) as i64;",
+         why="quadrant digits 0,1,2,3 in Z order instead of Hilbert order (own reader unchanged: ids of foreign archives map to wrong tiles)"),
+    dict(p="C16", id="ctl-pm-tileid-digit-if-form", file="versatiles_container/src/container/pmtiles/types/tile_id.rs", control=True, checks=["C16", "C01", "C19"],
+         old="		d += s * s * ((3 * rx) ^ ry) as i64;", new="		let digit: i64 = if rx == 1 { 3 - ry as i64 } else { ry as i64 };\n		d += digit * s * s;",
+         why="the same digit table written with a branch"),
 ]
